@@ -126,6 +126,12 @@ def run(prop, tier):
         rep.sample([{k: (codec.src(v) if isinstance(v, dict) and v.get("k") in ("int", "str") else
                          (v if not isinstance(v, dict) else v.get("k"))) for k, v in a.items() if v not in ("",)}
                     for a in h])
+    acts = {}
+    for h in hs:
+        for a in h:
+            k = a["act"] + (":" + a["sh"] if a["act"] == "Build" else (":" + a["slot"] if a["act"] == "Rebind" else ""))
+            acts[k] = acts.get(k, 0) + 1
+    rep.extra["action_counts_in_replayed_histories"] = acts
     rep.extra.update(histories_generated=total, replayed=len(hs), verdicts=counts, steps=steps,
                      shapes="S1..S12 of spec/Capture.tla (closure cell, global, nested class constants, module "
                             "attribute, names re-bound by a nested lambda / comprehension target / own parameter, "
